@@ -201,7 +201,7 @@ SVC_ALPHA = [["bool"], ["uint", 3, "s"], ["uint", 8, "s"], ["varr", ["bool"], 3]
 
 def plan(tier):
     shards = [{"kind": "offsets", "part": p, "parts": 48} for p in range(48)]
-    shards += [{"kind": "alias-intrinsics"}]
+    shards += [{"kind": "alias-intrinsics"}, {"kind": "colliders"}]
     shards += [{"kind": "service-intrinsics", "part": p, "parts": 16} for p in range(16)]
     shards += [{"kind": "arrays", "part": p, "parts": 4} for p in range(4)]
     shards += [{"kind": "intrinsics", "part": p, "parts": 32} for p in range(32)]
@@ -221,6 +221,13 @@ def cases(shard, tier):
                 if i % shard["parts"] == shard["part"]:
                     yield {"kind": "array", "desc": ["farr", e, n]}
                 i += 1
+    elif shard["kind"] == "colliders":
+        # sequences, in ONE process, of composites over element / field types whose length sets differ but agree in min, max and
+        # residues mod 32; then the same element arrays asked for their element offsets
+        for g in T.COLLIDERS:
+            for a, b in itertools.permutations(g, 2):
+                yield {"kind": "offsets-seq", "descs": [["struct", [["farr", a, 2], ["bool"]]], ["struct", [["farr", b, 2], ["bool"]]], ["struct", [["bool"], ["varr", a, 2], ["uint", 8, "s"]]], ["struct", [["bool"], ["varr", b, 2], ["uint", 8, "s"]]],
+                                                      ["struct", [a, b, ["bool"]]], ["union", [["farr", a, 3], ["farr", b, 3]]]], "arrays": [["farr", a, 3], ["farr", b, 3]]}
     elif shard["kind"] == "alias-intrinsics":
         for a, b in itertools.permutations(range(len(ALIAS_DEPS)), 2):
             yield {"kind": "alias-intrinsics", "pair": [a, b]}
@@ -536,6 +543,12 @@ def check_case(case, R):
         return check_alias_intrinsics(case, R)
     if case["kind"] == "service-intrinsics":
         return check_service_intrinsics(case, R)
+    if case["kind"] == "offsets-seq":
+        for d in case["descs"]:
+            check_offsets({"kind": "offsets", "desc": d}, R)
+        for d in case["arrays"]:
+            check_array({"kind": "array", "desc": d}, R)
+        return
     if case["kind"] == "offsets":
         check_offsets(case, R)
     elif case["kind"] == "array":
